@@ -611,3 +611,27 @@ def gen_shape_pairs(rng):
             rng.shuffle(p)
             m["rank-order"][t] = p
     return decl, exprs, m, syms
+
+
+def flatten_only_mapping(rng, es):
+    """flatten() of two ranks of one input tensor and nothing else (no split of the flattened rank): in particular an output
+    rank flattened together with a reduced rank.  Loop order: the flattened rank and the remaining ranks in any order."""
+    out = es["out"]
+    outr = es["decl"][out]
+    cands = [t for t, rs in es["decl"].items() if t != out and len(rs) >= 2]
+    if not cands:
+        return None
+    t = rng.choice(cands)
+    rs = list(es["decl"][t])
+    mixed = [(a, b) for a in rs for b in rs if a != b and (a in outr) != (b in outr)]
+    pair = list(rng.choice(mixed)) if mixed and rng.random() < 0.7 else rng.sample(rs, 2)
+    m = random_mapping(rng, es, loop_order_p=0.0)
+    rest = [r for r in rs if r not in pair]
+    pos = rng.randint(0, len(rest))
+    m["rank-order"][t] = rest[:pos] + pair + rest[pos:]
+    m["partitioning"] = {out: {"(%s)" % ", ".join(pair): ["flatten()"]}}
+    loop = ["".join(pair)] + [r for r in es["ranks"] if r not in pair]
+    if rng.random() < 0.8:
+        rng.shuffle(loop)
+    m["loop-order"] = {out: loop}
+    return m
